@@ -305,6 +305,7 @@ def run(c):
                   "outside the model: sqlglot's extraction of column references from a formula (the dependency SET is taken from the real code), DuckDB's parser / evaluator of the expanded text",
                   "the reading of C06_text_expansion assumes the formula text parses to the tree it was rendered from (sqlglot / DuckDB as oracle; exercised by (b))"]
     c.assumptions += ["components are integer-valued aggregates (sum / count / min / max / count_distinct, optionally filtered, or inline-aggregate expressions); `/` is exact division, x / 0 = NULL (DuckDB)"]
+    lib.regen_small(c, "_wrap_with_fill_nulls")
     c.build_props()
     n = 140 if c.tier == "quick" else 2500
     cases = corpus_cases() + [gen_case(c.rng) for _ in range(n)]
